@@ -227,6 +227,7 @@ def path_parser(ctx, job, box):
     """End to end: CSI [digits] [; digits] final through Parser<Screen> -- parameter collection, defaulting
     (an omitted number reaches the screen as 0) and the motion rule together."""
     from ..state import Ev
+    from .common import fields_same
     prog, L = G['prog'], G['L']
     eng = Engine(prog, ctx)
     box['eng'] = eng
@@ -253,16 +254,33 @@ def path_parser(ctx, job, box):
     d1 = digits('a', nd1)
     d2 = digits('b', nd2) if nd2 is not None else None
     chars = [0x9b] + d1 + ([ord(';')] + d2 if d2 is not None else []) + [ord(fin)]
+    # an earlier control sequence that was aborted (CAN/SUB) or skipped (`$` + final) after a completed
+    # parameter: nothing of it may reach the sequence under test
+    pk = job.params.get('prefix')
+    if pk:
+        e = digits('e', 1)
+        ab = ctx.bvvar('abort', 32)
+        ctx.assume(z3.Or(ab == 0x18, ab == 0x1a))
+        pre_chars = {'abort': [0x9b] + e + [ord(';'), ab], 'skip': [0x9b] + e + [ord(';'), ord('$'), ord('x')]}[pk]
+    else:
+        pre_chars = []
     outcome, msg = 'ok', None
+    mid = pre
     try:
+        if pre_chars:
+            # (the abort character is handed to draw(), which may touch the dirty set: the sequence under
+            # test is judged from the state the prefix leaves)
+            ses.feed(Str(tuple(pre_chars)))
+            mid = ses.screen
         ses.feed(Str(tuple(chars)))
     except Panic as e:
         outcome, msg = 'panic', str(e)
     post = ses.screen
+    chunks = ([pre_chars] if pre_chars else []) + [chars]
 
     def jsteps(model):
         ev = Ev(model)
-        return [['feed_cps', [ev.int(c) for c in chars]]]
+        return [['feed_cps', [ev.int(c) for c in ch]] for ch in chunks]
 
     def scenario(model):
         st = snapshot(eng, L, pre, model)
@@ -275,7 +293,7 @@ def path_parser(ctx, job, box):
         st = snapshot(eng, L, pre, model)
         return {'geom': [st['columns'], st['lines']], 'cursor': [st['cursor']['x'], st['cursor']['y']],
                 'margins': st['margins'], 'DECOM': 192 in st['mode'],
-                'input': ''.join(chr(c) for c in jsteps(model)[0][1]).encode('unicode_escape').decode(),
+                'input': ''.join(chr(c) for st_ in jsteps(model) for c in st_[1]).encode('unicode_escape').decode(),
                 'outcome': outcome if outcome == 'ok' else 'panic: ' + str(msg)}
 
     if outcome == 'panic':
@@ -288,7 +306,8 @@ def path_parser(ctx, job, box):
     py = z3.ZeroExt(32, bv(cur.f[L.cursor['y']]))
     return [Check(z3.And(px == ex, py == ey), scenario, describe,
                   label='CSI %s through the parser: cursor position differs from the documented rule' % fin),
-            Check(frame_ok(L, pre, post), scenario, describe, label='CSI %s through the parser changed other state' % fin)]
+            Check(bool_and(frame_ok(L, mid, post), fields_same(L, pre, mid, except_=('buffer', 'dirty'))), scenario, describe,
+                  label='CSI %s through the parser changed other state' % fin)]
 
 
 def jobs(tier):
@@ -300,6 +319,10 @@ def jobs(tier):
         for sh in shapes:
             js.append(Job('parser/%s/%s' % (fin, '%d' % sh[0] + ('' if sh[1] is None else ';%d' % sh[1])), path_parser,
                           final=fin, digits=sh, prop=PROP))
+    for pk in ('abort', 'skip'):
+        for fin in ('C', 'B', 'H', 'd'):
+            for sh in ((0, None), (1, None)):
+                js.append(Job('parser-after-%s/%s/%d' % (pk, fin, sh[0]), path_parser, final=fin, digits=sh, prefix=pk, prop=PROP))
     for op in ONE + TWO + NOARG:
         js.append(Job('api/' + op, path_api, op=op, prop=PROP))
     for fin in FINALS:
@@ -315,6 +338,7 @@ META = {
     'bounds': 'columns 1..=140 and lines 1..=40 symbolic; cursor x in 0..=columns, y in 0..lines; margins absent or '
               '0<=top<bottom<=lines-1; DECOM and every other mode symbolic; each parameter absent or 0..=9999; '
               'csi_dispatch with 0..2 (thorough 3) parameters for finals A B C D E F G H a d e f; the same finals end to end '
-              'through Parser<Screen> with 0..2 symbolic digits per parameter',
+              'through Parser<Screen> with 0..2 symbolic digits per parameter, also right after a CSI that was aborted by '
+              'CAN/SUB or skipped by `$` with a completed parameter',
     'outside': 'geometries above 140x40; parameters above 9999 (the recogniser saturates there); the recogniser itself (C03)',
 }
